@@ -92,6 +92,13 @@ TYPE_NAMING = {
 }
 
 
+FB_FORMS = {
+    "LateResolvedType": "`inst : Callee;` (a bare type name: the parser cannot know its kind)",
+    "Simple": "`VAR_EXTERNAL inst : Callee; END_VAR` (an external declaration names every type this way)",
+    "Structure": "`inst : Callee := (IN1 := TRUE);` (written like a structure initializer)",
+}
+
+
 def run_typeuses(ctx, rep, rid="R-C02-typeuses"):
     """"Every used type declared": a variable declaration names its type in one of the InitialValueAssignmentKind variants.  For each variant
     that can name a user-declared type, the arm of TypeResolver::fold_initial_value_assignment_kind looks the name up in the type table
@@ -162,6 +169,21 @@ def run_typeuses(ctx, rep, rid="R-C02-typeuses"):
             r.ok(inst, where, "looked up in the type table")
         else:
             r.finding(inst + "|type-not-looked-up", where, "a variable declared with a %s initializer names a type that is never looked up: an undeclared type is accepted there (no P0022)" % name)
+    # an instance of a function block can be declared in each of these forms; the rules that follow (invocation P0021, constant P0017)
+    # recognise an instance by the FunctionBlock initializer only, so each of these arms must be able to turn its node into one
+    r2 = rep.rule(rid.replace("typeuses", "fbinst"), "every form in which a function block instance can be declared is resolved to a FunctionBlock initializer (the invocation rules "
+                  "know instances by that node only)", floor=3, floor_what="initializer kinds that can name a function block")
+    for name, why in sorted(FB_FORMS.items()):
+        inst = "InitialValueAssignmentKind::%s" % name
+        succ = arm_of.get(name)
+        own_arm = succ is not None and len([l for l, s_ in arm_of.items() if s_ == succ]) == 1
+        region = b.reachable(succ, avoid=entries - {succ}) if own_arm else set()
+        makes = any(i in region and st[0] == "=" and st[2][0] == "agg" and isinstance(st[2][1], dict) and (st[2][1].get("adt") or "").endswith("InitialValueAssignmentKind")
+                    and st[2][1].get("variant") == "FunctionBlock" for i, j, st in b.all_stmts())
+        if makes:
+            r2.ok(inst, where, why)
+        else:
+            r2.finding(inst + "|stays-" + name, where, "%s: the resolver leaves it a %s initializer, so invoking the instance is reported as P0021 although it is declared" % (why, name))
 
 
 def run_identity(ctx, rep, rid="R-C02-identity"):
